@@ -76,15 +76,17 @@ def main():
                 caught[p] = {"exit": rc, "violations": lines[:3], "summary": out.strip().splitlines()[-1:] }
             res[f"check_{a.tier}"] = caught
             res["caught"] = any(v["exit"] == 1 for v in caught.values())
+            # merge into the file on disk right away (several runs may be going on)
+            results = json.load(open(rp)) if os.path.exists(rp) else {}
             prev = results.get(sid, {})
             prev.update(res)
             results[sid] = prev
+            json.dump(results, open(rp, "w"), indent=1, sort_keys=True)
             print(sid, prop, "CAUGHT" if res["caught"] else "MISSED", {k: v["exit"] for k, v in caught.items()},
                   {k: res[k] for k in ("demo_clean_exit", "demo_patched_exit", "suite_ok_with_patch") if k in res})
         finally:
             sh(f"git -C /repo worktree remove --force {wt}")
             shutil.rmtree(wt, ignore_errors=True)
-    json.dump(results, open(rp, "w"), indent=1, sort_keys=True)
 
 
 if __name__ == "__main__":
